@@ -32,7 +32,7 @@ def run(chk, scratch):
     for wi in range(n_worlds):
         seed = chk.seed * 17 + wi
         d = os.path.join(scratch, "w%d" % wi)
-        w = world2.rich_world(seed, n_chroms=3, genes_per_chrom=3, reads_per_t=5, hidden_cov=5)
+        w = world2.rich_world(seed, n_chroms=3, genes_per_chrom=3, reads_per_t=5, hidden_cov=5, zoo=world2.ZOO_ALL)
         rng = random.Random(seed)
         # equal-coordinate records: duplicates of some reads under new names
         base_reads = [r for r in w.reads if not (r.flag & 4) and not r.truth.get("multimap")]
